@@ -480,7 +480,7 @@ class Check:
         cov.update(self.extra)
         ev = {
             "property_id": self.prop,
-            "tier": self.tier,
+            "tier": getattr(self, "evidence_tier", self.tier),
             "seed": int(self.seed),
             "level": "model_checking",
             "coverage": cov,
